@@ -53,6 +53,7 @@ def seqs_of(obj):
     raise TypeError(obj)
 
 
+@guarded
 def check(r, items, route, seed):
     inp = {"items": items, "route": route, "seed": seed}
     rng = random.Random(seed)
